@@ -27,6 +27,111 @@ func runC09(c *engine.Ctx) {
 	checkRemoteAddrAnswer(c)
 	checkQuota(c, "R5")
 	checkPortBookkeeping(c, "R6")
+	// ---- R7 a port is released once: inside the Close guard (shared with C10.R7) ----
+	c.Rule("R7", "inside a Close method that carries an idempotence guard, every port release and channel close happens on the guarded (first-close) path")
+	checkGuardedRelease(c, buildResTable(c))
+	checkAllowListParse(c, "R8")
+}
+
+// checkAllowListParse (R8): the operator's allow-list is what NewPortsRangeSliceFromString makes of a string. If its
+// error is thrown away the result is nil, and an empty AllowPorts means "every port is allowed": a typo would silently
+// switch the whitelist off. Every call site must use the error, or parse a string that was validated (parsed with a
+// nil error) on every path that stored it.
+func checkAllowListParse(c *engine.Ctx, rule string) {
+	c.Rule(rule, "the error of types.NewPortsRangeSliceFromString is used at every call site, or the parsed string comes from a field that is only ever assigned a string which the same parser accepted")
+	p := c.P
+	parse := funcObj(c, "pkg/config/types", "NewPortsRangeSliceFromString")
+	if parse == nil {
+		return
+	}
+	errUsed := func(call ssa.CallInstruction) bool {
+		v := call.Value()
+		if v == nil || v.Referrers() == nil {
+			return false
+		}
+		for _, r := range *v.Referrers() {
+			if ex, ok := r.(*ssa.Extract); ok && ex.Index == 1 && ex.Referrers() != nil {
+				for _, u := range *ex.Referrers() {
+					if _, dbg := u.(*ssa.DebugRef); !dbg {
+						return true
+					}
+				}
+			}
+		}
+		return false
+	}
+	validated := func(fv *types.Var) (bool, string) {
+		stores := 0
+		okAll := true
+		why := ""
+		for _, f := range p.RepoFuncs() {
+			f := f
+			engine.ForEachInstr(f, func(in ssa.Instruction) {
+				st, ok := in.(*ssa.Store)
+				if !ok {
+					return
+				}
+				if lf, _ := engine.LoadedField(st.Addr); lf != fv {
+					return
+				}
+				if sv, isC := engine.ConstString(st.Val); isC && sv == "" {
+					return
+				}
+				stores++
+				q := &engine.PathQuery{Fn: f, Sink: engine.Is(in)}
+				states, err := q.Run()
+				if err != nil || len(states) == 0 {
+					okAll, why = false, "store at "+p.Pos(in.Pos())+" not analysable"
+					return
+				}
+				for _, ps := range states {
+					good := false
+					for _, l := range ps.Lits {
+						if l.Op != token.EQL || !l.Val {
+							continue
+						}
+						x, y := l.X, l.Y
+						if engine.IsNilConst(x) {
+							x, y = y, x
+						}
+						if !engine.IsNilConst(y) {
+							continue
+						}
+						if cl, i := engine.ResultOfCall(x); cl != nil && i == 1 && engine.SameFunc(engine.CalleeObj(cl), parse) && engine.SameValue(cl.Call.Args[0], st.Val) {
+							good = true
+						}
+					}
+					if !good {
+						okAll, why = false, "the string stored at "+p.Pos(in.Pos())+" was not parsed successfully first"
+					}
+				}
+			})
+		}
+		if stores == 0 {
+			return false, "no store found"
+		}
+		return okAll, why
+	}
+	n := 0
+	for _, f := range p.RepoFuncs() {
+		for _, call := range engine.CallsTo(f, parse) {
+			n++
+			key := fmt.Sprintf("%s>allow-list-parse", p.FuncName(f))
+			if errUsed(call) {
+				c.Hold(key, call.Pos(), 1, nil, "the parse error is used")
+				continue
+			}
+			fv, _ := engine.LoadedField(engine.Unwrap(call.Common().Args[0]))
+			if fv == nil {
+				c.Violate(key, call.Pos(), nil, "the allow-list parse error is discarded: an unparsable list becomes the empty list, which allows every port")
+				continue
+			}
+			okV, why := validated(fv)
+			c.Check(okV, key, call.Pos(), 2, []string{"parsed string: field " + fv.Name()},
+				"the discarded parse error cannot occur: field %s only ever holds a string the parser accepted (%s)", fv.Name(), why)
+		}
+	}
+	c.Floor(n, 2)
 }
 
 // checkPortBookkeeping (R6): (a) the reservation remembers the granted port: every store to PortCtx.Port inside
